@@ -22,7 +22,7 @@ func init() {
 			"(R3) negation cannot be produced by the parser: no NotExpression is constructed in anything reachable from sqe.Parse, and the NOT token is an error; " +
 			"(R4) both skip predicates are the negation of membership / evaluation, and the executor uses the pre-computed bitmap exactly when one exists; " +
 			"(R5) the optimiser only flattens an OR into an OR; " +
-			"(R6) the index maps each emitted key to the set of block numbers of the items that emitted it.",
+			"(R6) the index maps each emitted key to the set of block numbers of the items that emitted it. Also (R1) both evaluators look a key term up under a key of the same provenance.",
 		NotCovered:  "Semantic equality of the two evaluators on all expressions and data (only their case-by-case structure is compared); roaring bitmap correctness.",
 		Assumptions: []string{"roaring64.Bitmap And/Or implement set intersection/union", "Clone() returns an independent copy"},
 	})
